@@ -43,7 +43,15 @@ def havoc_like(v, name):
     if k == 'node':
         return VNode(fresh(name, Node))
     if k == 'none':
-        return v
+        # a local that is None at loop entry and assigned in the body: an optional int (checked after the body)
+        from .pathsmodel import VOptInt
+        return VOptInt(fresh(name + '.isnone', Bool), fresh(name, Int))
+    if k == 'optint':
+        from .pathsmodel import VOptInt
+        return VOptInt(fresh(name + '.isnone', Bool), fresh(name, Int))
+    if k == 'optbag':
+        from .pathsmodel import VOptBag
+        return VOptBag(v.w, fresh(name + '.isnone', Bool), fresh(name + '.cnt', z3.ArraySort(Int, Int)))
     if k == 'seq':
         from .seqs import havoc_seq
         return havoc_seq(v, name)
@@ -53,6 +61,12 @@ def havoc_like(v, name):
         return VList([havoc_like(x, '%s[%d]' % (name, i)) for i, x in enumerate(v.items)])
     if k == 'opaque' and v.tag == 'ghost':
         return VOpaque(fresh(name, v.z.sort()), 'ghost')
+    if k == 'dict' and v.pairs and all(kk.kind == 'str' for kk, _ in v.pairs) and not v.esc and getattr(CUR_CTX, 'pathworld', None) is not None:
+        # a local dict of result lists (annotate_paths): every slot becomes an optional bag of input paths
+        from .pathsmodel import VOptBag
+        d = VDictLit([(kk, VOptBag(CUR_CTX.pathworld, fresh('%s[%s].isnone' % (name, kk.s), Bool), fresh('%s[%s].cnt' % (name, kk.s), z3.ArraySort(Int, Int))))
+                      for kk, vv in v.pairs])
+        return d
     if k == 'dict' and (getattr(v, 'symset', None) is not None or not v.pairs) and not v.esc:
         d = VDictLit([])
         d.symset = fresh(name, z3.ArraySort(Node, Bool))
@@ -107,6 +121,7 @@ def make_L(interp, fr, k, g0, env0, extra=None):
         L.augmented = [n.target.id for st in node.body for n in ast.walk(st) if isinstance(n, ast.AugAssign) and isinstance(n.target, ast.Name)]
         L.tv = lambda i: L.env[L.tnames[i]]
     L.iterable = getattr(interp, 'cur_loop_iterable', None)
+    L.opt_order = getattr(interp, 'opt_order', [])
     stack = getattr(interp, 'loop_stack', [])
     if len(stack) >= 2:
         onode, oit = stack[-2]
@@ -143,8 +158,13 @@ def _exec_for_cut(interp, node, fr, it, spec):
     raise Undecided('loop over %s: no cut rule' % it.kind)
 
 
+CUR_CTX = None
+
+
 def _havoc(interp, fr, node, spec, tag):
+    global CUR_CTX
     ctx = interp.ctx
+    CUR_CTX = ctx
     for gname, comps in spec.modifies.items():
         g = ctx.graphs[gname]
         g.havoc(tag, only=comps)
